@@ -11,6 +11,8 @@ for f in k['fixed']:
     seen.add(c)
     d = subprocess.run(['git', '-C', '/repo', 'show', '--format=', c, '--', '*.go', ':!*_test.go'], capture_output=True, text=True).stdout
     p = f'/verif/selftest/fix-{c}.diff'
+    if os.path.exists(f'/verif/selftest/reintro-{c}.diff'):
+        continue
     if d.strip():
         open(p, 'w').write(d)
 print(len(seen), 'commits')
